@@ -7,6 +7,7 @@ import Compress.Proofs.Bzip2Stages
 import Compress.Proofs.BitIO
 import Compress.Proofs.XFlateReader
 import Compress.XFlate.ReaderSpec
+import Compress.Proofs.BzImplCut
 
 namespace Compress.Props.C10
 open Compress Compress.Flate Compress.Prefix Compress.Bzip2 Compress.Proofs.Bzip2Stages Compress.Proofs.FlateRefine
@@ -44,5 +45,16 @@ theorem C10_xflate_any_fragmentation (L : XFlate.Layout) (plain : List UInt8) (w
     (ops : List XFlate.ROp) :
     XFlate.TraceOK plain 0 ops (XFlate.runOps .fixed L (XFlate.opened .fixed L) ops) :=
   Compress.Proofs.XFlateReader.readseeker L plain wf ops
+
+open Compress.Proofs.BzImpl in
+/-- **bzip2.Reader.** Two schedules of Read buffer lengths (zero-length buffers anywhere) over the
+    same input deliver comparable byte strings - both are prefixes of the specification's output -
+    and if both runs ended they delivered the same bytes and ended with the same error. -/
+theorem C10_bzip2_reader_read_sizes (bytes : List UInt8) (s1 s2 : List Nat) :
+    ((Bzip2.Impl.run bytes s1).delivered <+: (Bzip2.Impl.run bytes s2).delivered ∨
+      (Bzip2.Impl.run bytes s2).delivered <+: (Bzip2.Impl.run bytes s1).delivered) ∧
+    (∀ e1 e2, (Bzip2.Impl.run bytes s1).err = some e1 → (Bzip2.Impl.run bytes s2).err = some e2 →
+      (Bzip2.Impl.run bytes s1).delivered = (Bzip2.Impl.run bytes s2).delivered ∧ e1 = e2) :=
+  schedule_independent tables_agree bytes s1 s2
 
 end Compress.Props.C10
